@@ -120,6 +120,15 @@ package ast
 //@ nonnil field ast.SlotStmt.Name
 //@ nonnil field ast.UseStmt.Name
 
+// the keys of an object literal, in sorted order (every one is a key of the literal)
+//@ func (ol *ObjectLiteral) SortedKeys
+//@   requires ol != nil
+//@   ensures forall(j, 0, len(result), has(ol.Pairs, result[j]))
+//@   ensures fresh(result) || len(result) == 0
+//@   modifies nothing
+//@   loop 0: invariant forall(j, 0, len(keys), has(ol.Pairs, keys[j])) && fresh(keys) && len(keys) >= 0
+//@   loop 0: deterministic-by-contract
+
 //@ func (p *Program) HasReserveStmt
 //@   inline
 //@ func (p *Program) HasUseStmt
